@@ -19,8 +19,8 @@ Supported fragment (anything else is a *translation problem*, never skipped):
     ``pass``, expression statements that are calls, nested function definitions of the three wrapper factories,
     the keyword forwarding loop ``for n in [<names>]: kw[n] = locals()[n]`` (evaluated statically);
   * expressions: names, ``None/True/False``, ``numpy.inf`` / ``-numpy.inf`` (typed by context), ``is None`` /
-    ``is not None``, ``and/or/not`` (Python truthiness of bool / Optional[bool]), ``>=`` between an evaluation count and
-    the limit, ``>`` between floats, ``==`` between strings, ``numpy.all(numpy.logical_and(a <= b, c <= d))``,
+    ``is not None``, ``and/or/not`` (Python truthiness of bool / Optional[bool]), ``>=`` / ``>`` between an evaluation count and
+    the limit, ``> >= < <=`` between floats, ``==`` between strings, ``numpy.all(numpy.logical_and(a <= b, c <= d))``,
     masks ``a > b`` / ``a < b``, ``a[mask]``, ``numpy.allclose/isfinite/isneginf/atleast_1d/squeeze/array``,
     ``x.copy()``, ``x.shape != ()``, calls of the wrapped objective, of ``get_best``, of the factories, of ``maximise``,
     of ``<optimiser>.maximise(f, x, ...)`` (an adversary: a list of query points), ``lc.optimise(**kw)``,
@@ -394,8 +394,13 @@ class FnTranslator:
             b, tb = self.expr(r, lam=lam)
             if isinstance(op, ast.GtE) and ta == "Nat" and tb == "NatInf":
                 return f"(natGe {a} {b})", "Bool"
-            if isinstance(op, ast.Gt) and ta == "PyF" and tb == "PyF":
-                return f"(pyGt env {a} {b})", "Bool"
+            if ta == "PyF" and tb == "PyF" and isinstance(op, (ast.Gt, ast.GtE, ast.Lt, ast.LtE)):
+                fn_ = "pyGt" if isinstance(op, (ast.Gt, ast.Lt)) else "pyGe"
+                if isinstance(op, (ast.Lt, ast.LtE)):
+                    a, b = b, a
+                return f"({fn_} env {a} {b})", "Bool"
+            if ta == "Nat" and tb == "NatInf" and isinstance(op, ast.Gt):
+                return f"(natGt {a} {b})", "Bool"
             if isinstance(op, ast.Eq) and ta == "Str" and tb == "Str":
                 return f"({a} == {b})", "Bool"
             if ta == "X" and tb == "X":
